@@ -16,7 +16,7 @@ PARTS = [(f, w) for f in BUFFERED_FAMILIES for w in WHICH]  # 8 buffered classes
 
 # E = enter obj.buffered, B = enter backend-wide, X = exit innermost, _ = operation slot
 PATTERNS = [
-    "E___X", "B___X", "E_B_X_X", "B_E_X_X", "_E_X_", "E_X_E_X", "B_X_B_X", "E_E_X_X", "B_B_X_X", "E__", "B__", "_B_E_", "E_X_B_X",
+    "ME___X", "MB___X", "ME_X_", "E___X", "B___X", "E_B_X_X", "B_E_X_X", "_E_X_", "E_X_E_X", "B_X_B_X", "E_E_X_X", "B_B_X_X", "E__", "B__", "_B_E_", "E_X_B_X",
 ]
 
 SLOT_OPS = {
@@ -62,12 +62,13 @@ def prog(pat: int, s1: int, s2: int, s3: int, exc: int) -> bool:
 
 def _run(env, fam, which, pattern, sel, exc, args, x, y, v, w2):
     w = bufprog.BufWorld(env, fam, which)
-    w.add_file("f", doc0(which, x, y))
+    missing = pattern.startswith("M")  # the backing file does not exist yet
+    w.add_file("f", MISSING if missing else doc0(which, x, y))
     w.add_obj("o", "f")
-    names = []
+    names = ["file-missing"] if missing else []
     slot = 0
     entered_tok = None
-    steps = list(pattern)
+    steps = list(pattern.lstrip("M"))
     last_x = max((i for i, c in enumerate(steps) if c == "X"), default=-1)
     fp_base = {"family": fam.buffered, "which": which}
     for idx, c in enumerate(steps):
